@@ -16,14 +16,14 @@ PID = "C10"
 MANIFEST_ENTRY = {
  "level_claimed": {
   "category": "proof",
-  "text": "Theorems in coq/Properties/C10.v (truth-table clauses of C10): the falsy sets extracted separately from is_true_value, jump_if_true and jump_if_false (coq/Gen/Dispatch.v, regenerated from /repo on every run) each equal the pinned coq/Spec/Falsy.v = {Unit, False}; each of the seven testing constructs ?> !> && || ^^ !! ??, run as one step of the type-level model coq/Model/OpDispatch.v (which reads the generated falsy sets and the generated shapes of and/or/xor/not/tis), classifies a value of each of the 21 types (any inner type, any host mode) as true iff its type is not Unit/False; ^^ is the exclusive or of the two truth values; && || ^^ !! ?? never call the host and whatever they push is True or False. Finite domain (7 x 101 x 101 x 3), proved by vm_compute + enumeration completeness. The model is tied to the runtime by running every construct on every representative value of every type on both data implementations and diffing, and the spec's truth value is compared directly with what each construct did. Short-circuit and one-arm clauses (program level) are in separate files when present.",
+  "text": "Theorems in coq/Properties/C10.v (truth-table clauses of C10): the falsy sets extracted separately from is_true_value, jump_if_true and jump_if_false (coq/Gen/Truth.v, regenerated from /repo on every run) each equal the pinned coq/Spec/Falsy.v = {Unit, False}; each of the seven testing constructs ?> !> && || ^^ !! ??, run as one step of the type-level model coq/Model/OpDispatch.v (which reads the generated falsy sets and the generated shapes of and/or/xor/not/tis), classifies a value of each of the 21 types (any inner type, any host mode) as true iff its type is not Unit/False; ^^ is the exclusive or of the two truth values; && || ^^ !! ?? never call the host and whatever they push is True or False. Finite domain (7 x 101 x 101 x 3), proved by vm_compute + enumeration completeness. The model is tied to the runtime by running every construct on every representative value of every type on both data implementations and diffing, and the spec's truth value is compared directly with what each construct did. Short-circuit and one-arm clauses (program level) are in separate files when present.",
   "design_ref": "DESIGN.md section 8 C10 (a),(b)"
  },
  "level_note": "Partial: only the truth-table clauses are claimed by this file; `&&`/`||` producing a boolean at PROGRAM level additionally needs the compiler fact that the out-of-line right operand ends in Tis, and short-circuit / one-arm need the compiler+evaluator model (Properties/C10_*.v, other component). Trusted: Coq kernel; translator tools/sync/dispatch.py (falsy sets and logical-operator shapes are recognised syntactically, anything else raises); the harness; the Python reading of what each construct's observable behaviour means.",
  "technique": "Coq finite proof by computation over regenerated falsy sets + exhaustive construct x type differential run + direct truth-table oracle"
 }
 TRUSTED = vplib.BASE_TRUSTED + [
-    "tools/sync/dispatch.py: falsy sets of is_true_value / jump_if_true / jump_if_false and the shapes of and/or/xor/not/tis are extracted by shape; an unrecognised shape raises",
+    "tools/sync/truth.py (code in dispatch.py): falsy sets of is_true_value / jump_if_true / jump_if_false and the shapes of and/or/xor/not/tis are extracted by shape; an unrecognised shape raises",
     "coq/Spec/Falsy.v pinned by hand from the property text ({Unit, False})",
     "tools/props/c10.py: what each construct's observable step means (jumped / pushed True / pushed False)",
 ]
@@ -142,9 +142,13 @@ def run(tier, seed):
         "truth depends on the type of a value only (every value of a type other than Unit and False is true)",
         "what a construct 'decided' is read off one step: ?> jumps on true, !> jumps on false, && jumps on (to its right operand) on true and pushes False otherwise, || pushes True on true and jumps on otherwise, !! / ?? / ^^ push a boolean",
     ]
-    sy = vplib.sync(["instr", "execmap", "dispatch"])
+    sy = vplib.sync(["instr", "execmap", "truth", "dispatch", "dispatch_strict"])
     for k, e in sy["errors"].items():
-        v.tie_failure("translator %s: %s" % (k, e))
+        if k == "dispatch_strict":
+            # arm tables of operations C10 does not reason about: C08's tie, not this one's
+            v.notes.append("translator (not used by C10): " + e[:300])
+        else:
+            v.tie_failure("translator %s: %s" % (k, e))
     okx, outx = vplib.coq_make(["Extract/DispatchExtract.vo"])
     if not okx:
         v.tie_failure("extraction of the dispatch model failed: " + " | ".join(outx.strip().splitlines()[-4:])[:400])
